@@ -40,6 +40,7 @@ func init() {
 			"controller-runtime fake client behind a write-recording interposer; each strategy is also applied alone to a fresh copy of the route. Checked: weight split and frame per rule; " +
 			"request-level narrowness of every generated canary rule over an alphabet of synthetic requests (paths x methods x values of every mentioned header / query name); restore after " +
 			"Finalise; history independence at every step; fixed point of EnsureRoutes / Finalise (reported under C07). " +
+			"Every tenth case instead lets the user edit the route mid-rollout (a backend of their own appended to the rules that carry the canary backend; or the canary backend pre-declared by the user with weight 0 in the middle of a rule): the user's own backends must survive every later step and Finalise, in order. " +
 			"distinct = distinct (rule-class multiset, step-kind sequence) signature.",
 		Assumptions: []string{
 			"the stored HTTPRoute carries the CRD defaults (path PathPrefix '/', header/query type Exact, backendRef group ''/kind Service/weight 1, redirect statusCode 302); a rule whose user wrote `matches: []` keeps no matches (defaults apply to absent fields only) and accepts every request",
@@ -54,7 +55,15 @@ func init() {
 		NumCases:  NumCases,
 		ChunkSize: 50,
 		Relevant:  "ensure_calls",
-		RunCase:   func(env *core.Env, idx int) *core.CaseResult { return RunCase(env, idx, "C13") },
+		RunCase: func(env *core.Env, idx int) *core.CaseResult {
+			if idx%10 == 9 {
+				// the user edits the route while the rollout is in flight (see useredit.go)
+				r := RunUserEditCase(env, idx)
+				r.Count("ensure_calls", r.Counters["useredit_provider_calls"])
+				return r
+			}
+			return RunCase(env, idx, "C13")
+		},
 	})
 }
 
